@@ -4,6 +4,6 @@ CONSTANTS
   MaxDepth = 1
   Dedup = TRUE
   NameFn <- GoodName
-INVARIANTS Once Complete Injective NoDivergeIfFinite RefusedOnlyIfInfinite
+INVARIANTS Once OnceEquiv Complete Injective DoneIffFinite Bookkeeping
 \* safety only: 23.7 M distinct states; the liveness property is checked in Mono_small.cfg (F2, depth 2) and Mono_deep.cfg (F2, depth 4)
 CHECK_DEADLOCK FALSE
